@@ -10,6 +10,40 @@ import OdxVerif.Proofs.DynLeafBase
 namespace OdxVerif.Codec
 open OdxVerif.Bits OdxVerif.OdxM
 
+/-! ### data objects that can only be encoded while `is_end_of_pdu` is cleared -/
+
+/-- `DComp.Ok` with the encoder refinement restricted: if `mid`, only from states with `is_end_of_pdu` cleared -/
+structure DComp.OkM (c : DComp) (mid : Bool) : Prop where
+  good : Good c.pair
+  sup_ne_none : c.sup ≠ PVal.none
+  originFree : OriginFree c.pair
+  dec_originFree : ∀ (d : DecState) (o : Nat),
+    c.pair.dec { d with origin := o } = ((c.pair.dec d).1, { (c.pair.dec d).2 with origin := o })
+  fits_originFree : ∀ (d : DecState) (o : Nat), c.pair.fits { d with origin := o } = c.pair.fits d
+  encode_eq : ∀ (fuel : Nat), c.need ≤ fuel → ∀ (s : EncState), s.cursorBit = 0 → (c.eopOnly = true → s.isEndOfPdu = true) →
+    (mid = true → s.isEndOfPdu = false) →
+    ∃ s', encodeDop fuel c.dop c.sup s true = .ok ((), s') ∧ SameCore s' (c.pair.enc s) ∧ s'.cursorBit = 0
+  enc_cursor : ∀ (s : EncState), (c.pair.enc s).cursorByte = s.cursorByte + c.size
+  dec_cursorBit : ∀ (d : DecState), d.cursorBit = 0 → (c.pair.dec d).2.cursorBit = 0
+  dec_msg : ∀ (d : DecState), (c.pair.dec d).2.msg = d.msg
+  dec_origin : ∀ (d : DecState), (c.pair.dec d).2.origin = d.origin
+  decode_eq : ∀ (fuel : Nat), c.need ≤ fuel → ∀ (d : DecState), d.cursorBit = 0 → c.pair.fits d → c.decPre d →
+    decodeDop fuel c.dop d true = .ok ((c.pair.dec d).1, (c.pair.dec d).2)
+
+theorem DComp.Ok.toM {c : DComp} (h : c.Ok) (mid : Bool) : c.OkM mid :=
+  { good := h.good, sup_ne_none := h.sup_ne_none, originFree := h.originFree, dec_originFree := h.dec_originFree,
+    fits_originFree := h.fits_originFree, encode_eq := fun fuel hf s hcb he _ => h.encode_eq fuel hf s hcb he,
+    enc_cursor := h.enc_cursor, dec_cursorBit := h.dec_cursorBit, dec_msg := h.dec_msg, dec_origin := h.dec_origin,
+    decode_eq := h.decode_eq }
+
+
+theorem DComp.OkM.toOk {c : DComp} (h : c.OkM false) : c.Ok :=
+  { good := h.good, sup_ne_none := h.sup_ne_none, originFree := h.originFree, dec_originFree := h.dec_originFree,
+    fits_originFree := h.fits_originFree, encode_eq := fun fuel hf s hcb he => h.encode_eq fuel hf s hcb he (fun hm => by cases hm),
+    enc_cursor := h.enc_cursor, dec_cursorBit := h.dec_cursorBit, dec_msg := h.dec_msg, dec_origin := h.dec_origin,
+    decode_eq := h.decode_eq }
+
+
 /-- the padding step of a BYTE-SIZE structure whose first byte is `origPos` — literally the model's state update -/
 def bsPad (origPos bs : Nat) (s : EncState) : EncState :=
   { s with msg := s.msg ++ List.replicate (origPos + bs - s.msg.length) 0,
@@ -167,8 +201,8 @@ def DComp.withByteSize (bs : Nat) (ps : List Param) (c : DComp) : DComp where
 
 /-- **closure under BYTE-SIZE**: a structure component whose encoding ends within BYTE-SIZE bytes is a component again when
     the BYTE-SIZE is declared; it then occupies exactly BYTE-SIZE bytes -/
-theorem DComp.withByteSize_ok (bs : Nat) (ps : List Param) (c : DComp) (hc : c.Ok) (hdop : c.dop = .struct none ps)
-    (hneed : 1 ≤ c.need) (hsize : c.size ≤ bs) : (DComp.withByteSize bs ps c).Ok where
+theorem DComp.withByteSize_okM (bs : Nat) (ps : List Param) (c : DComp) (mid : Bool) (hc : c.OkM mid)
+    (hdop : c.dop = .struct none ps) (hneed : 1 ≤ c.need) (hsize : c.size ≤ bs) : (DComp.withByteSize bs ps c).OkM mid where
   good := hc.good.sized bs (fun s => by have := hc.enc_cursor s; omega)
   sup_ne_none := hc.sup_ne_none
   originFree := by
@@ -194,9 +228,9 @@ theorem DComp.withByteSize_ok (bs : Nat) (ps : List Param) (c : DComp) (hc : c.O
     rw [h, h2]
     rfl
   encode_eq := by
-    intro fuel hf s hcb heop
+    intro fuel hf s hcb heop hmid
     obtain ⟨f, rfl⟩ : ∃ f, fuel = f + 1 := ⟨fuel - 1, by simp only [DComp.withByteSize] at hf; omega⟩
-    obtain ⟨s1, hrun, hcore, hcb1⟩ := hc.encode_eq (f + 1) hf s hcb heop
+    obtain ⟨s1, hrun, hcore, hcb1⟩ := hc.encode_eq (f + 1) hf s hcb heop hmid
     rw [hdop] at hrun
     have hrun' : encodeComposite f ps c.sup s true = .ok ((), s1) := by
       have h := hrun
@@ -249,6 +283,10 @@ theorem DComp.withByteSize_ok (bs : Nat) (ps : List Param) (c : DComp) (hc : c.O
     simp only [DComp.withByteSize, decodeDop, bind, pure, run_bind, run_getS, run_pure, hrun', run_ite, hfit'.2, if_false,
       run_modifyS]
     rfl
+
+theorem DComp.withByteSize_ok (bs : Nat) (ps : List Param) (c : DComp) (hc : c.Ok) (hdop : c.dop = .struct none ps)
+    (hneed : 1 ≤ c.need) (hsize : c.size ≤ bs) : (DComp.withByteSize bs ps c).Ok :=
+  (DComp.withByteSize_okM bs ps c false (hc.toM false) hdop hneed hsize).toOk
 
 theorem DComp.withByteSize_endOk (bs : Nat) (ps : List Param) (c : DComp) (hc : c.EndOk) (hno : c.eopOnly = false) :
     (DComp.withByteSize bs ps c).EndOk where
